@@ -32,6 +32,13 @@ MontKind(kind, v) == IF kind = "mont" /\ LessN(v, P) THEN "mont" ELSE "new"
 Init2(i, j, kind) == << [kind |-> MontKind(kind, Classes[i]), v |-> Pad(Classes[i])], [kind |-> "new", v |-> Pad(Classes[j])],
                         [kind |-> "new", v |-> Pad(<<3>>)], [kind |-> MontKind("mont", Classes[j]), v |-> Pad(Classes[j])] >>
 
+\* integers for the integer <-> element conversions (Mode "convs"): up to 128 bits whatever the field, around every source /
+\* target type width, around the modulus and its multiples, and integers whose low word alone is a canonical value
+ConvInts ==
+    Classes \o << <<255>>, FromInt(256), FromInt(65535), FromInt(65536), SubN(Pow2N(64), <<1>>), Pow2N(64), AddN(Pow2N(64), <<5>>),
+                  AddN(Pow2N(64), SubN(Pow2N(32), <<1>>)), AddN(Pow2N(64), P), AddN(P, P), AddN(AddN(P, P), <<1>>), AddN(Pow2N(65), <<3>>),
+                  AddN(Pow2N(96), <<1>>), Pow2N(127), SubN(Pow2N(128), <<1>>), SubN(Pow2N(128), Pow2N(64)), AddN(Pow2N(100), FromInt(1234567)) >>
+    \o (IF Word = 64 THEN << MulN(P, P), AddN(MulN(P, FromInt(65537)), <<2>>), MulN(P, Pow2N(32)) >> ELSE << >>)
 VARIABLES scn, done
 vars == <<scn, done>>
 
@@ -47,10 +54,11 @@ RandOp == LET op == RandomElement(Binary \cup Unary \cup {"exp", "mul_small"})
                              ELSE IF op = "mul_small" THEN Pad(Smalls[RandomElement(1..Len(Smalls))]) ELSE <<>>)
 
 Init == /\ done = FALSE
-        /\ IF Mode = "pairs"
+        /\ IF Mode = "convs" THEN scn = [convs |-> [k \in 1..Len(ConvInts) |-> ToBytes(ConvInts[k], 16)], ops |-> <<>>] ELSE
+           IF Mode = "pairs"
            THEN \E i \in 1..NC, j \in 1..NC, kind \in {"new", "mont"} : scn = [inits |-> Init2(i, j, kind), ops |-> PairOps]
            ELSE \E i \in 1..NC, j \in 1..NC : scn = [inits |-> Init2(i, j, IF (i + j) % 2 = 0 THEN "new" ELSE "mont"), ops |-> <<>>]
 Next == \/ Mode = "random" /\ ~done /\ Len(scn.ops) < Depth /\ scn' = [scn EXCEPT !.ops = Append(@, RandOp)] /\ UNCHANGED done
-        \/ ~done /\ (Mode = "pairs" \/ Len(scn.ops) = Depth) /\ done' = TRUE /\ UNCHANGED scn
+        \/ ~done /\ (Mode \in {"pairs", "convs"} \/ Len(scn.ops) = Depth) /\ done' = TRUE /\ UNCHANGED scn
 Emit == done => PrintT(ToJson(scn))
 =============================================================================
